@@ -274,7 +274,15 @@ def run_scenario(run, e4, sc):
         new = find_new_master(e4, srv, old, set(w_old))
         if new is None:
             err = srv.error_log()[-400:]
-            return v, "re-exec did not produce a new master (exec failure?): %s" % err, info
+            execd = any(e["kind"] == "pre_exec" for e in srv.events())
+            still_booting = [p for p in srv.children_of(old) if p not in w_old]
+            if execd and e4.alive(old) and len(srv.children_of(old)) <= nworkers:
+                # the exec step was reached and the process it produced is gone again: the upgrade failed although nothing
+                # stood in its way
+                v.append(("new-master-did-not-start", "USR2 reached the exec step but no new master announced itself and the "
+                          "process is gone: %s" % [ln for ln in srv.error_log().splitlines() if "rror" in ln or "xception" in ln][-3:]))
+                return v, None, info
+            return v, "re-exec did not produce a new master within 15 s (still booting: %s): %s" % (still_booting, err), info
         w_new = srv.wait_workers(nworkers, 20, master=new)
         if not w_new:
             return v, "new master did not boot its workers", info
